@@ -1097,6 +1097,7 @@ func designed(o *hx.Out) {
 		runSplit(o, splitDesc{s, 1 << 30}, "designed")
 	}
 	runSplit(o, splitDesc{[]int64{6 << 20, 6 << 20, 6 << 20}, 15 << 20}, "designed")
+	designedSvc(o)
 	for _, b := range [][]byte{{}, {1, 2, 3}, {0, 0, 0, 0, 0, 0, 0, 7}, {0, 0, 0, 0, 0, 0, 0, 7, 0, 0}, {0, 0, 0, 0, 0, 0, 0, 7, 0, 0, 0, 2, 9},
 		{0, 0, 0, 0, 0, 0, 0, 7, 0, 0, 0, 0}, {0, 0, 0, 0, 0, 0, 0, 7, 255, 255, 255, 255, 1}, {0, 0, 0, 0, 0, 0, 0, 7, 0, 0, 0, 1, 5, 0, 0, 0, 0}} {
 		runUnmarshal(o, unmarshalDesc{b}, "designed")
@@ -1145,6 +1146,10 @@ func main() {
 				var d unmarshalDesc
 				json.Unmarshal(in.Desc, &d)
 				runUnmarshal(o, d, "replay")
+			case "svc":
+				var d svcDesc
+				json.Unmarshal(in.Desc, &d)
+				runSvc(o, d, "replay")
 			}
 		}
 		return
@@ -1227,6 +1232,8 @@ func main() {
 	}
 	for i := 0; i < f.N; i++ {
 		switch i % 10 {
+		case 6, 7:
+			runSvc(o, genSvc(r.Split(), 6+r.Intn(22)), "gen")
 		case 8:
 			n := r.Intn(6)
 			lens := make([]int, n)
